@@ -50,6 +50,20 @@ def true_tangent(seg, at_end):
     return None
 
 
+def tangent_conditioning(seg, at_end):
+    """8 ulp(M)/|d| for the control-point difference d that true_tangent uses (M = largest |coordinate|)"""
+    import math
+    bp = list(seg.bpoints())
+    if at_end:
+        bp = bp[::-1]
+    scale = max(abs(p) for p in bp) + 1.0
+    for p in bp[1:]:
+        d = p - bp[0]
+        if abs(d) > 1e-13 * scale:
+            return 8 * math.ulp(max(abs(q) for q in bp)) / abs(d)
+    return 0.0
+
+
 def is_singular(seg):
     from svgpathtools import CubicBezier
     return isinstance(seg, CubicBezier) and (seg.control1 == seg.start or seg.control2 == seg.end)
@@ -501,7 +515,12 @@ def check_output(segs, closed, real_angles, mj, out, exc, dt, lib_tol=False):
         if u is None or v is None:
             worst, where = 2.0, i
             break
-        d = abs(u - v)
+        # conditioning of the two directions: a control-point difference d of points of magnitude M
+        # carries a relative rounding error ~ ulp(M)/|d| (short pieces far from the origin); the
+        # judge allows TAN_TOL on top of 8 ulp(M)/|d| per side (measured from the control points,
+        # independent of the library)
+        cond = tangent_conditioning(out[i], True) + tangent_conditioning(out[(i + 1) % n], False)
+        d = max(0.0, abs(u - v) - cond)
         if lib_tol:
             # the library's own kink tolerance: |u.v - 1| <= 1e-8 (scaled to compare with TAN_TOL)
             d = TAN_TOL * abs(u.real * v.real + u.imag * v.imag - 1) / 1e-8
